@@ -23,6 +23,8 @@ structure Mon where
   fwds : List MFwd := []
   qlen : List Nat := []                -- last seen reply-queue length per client
   slots : List (String × List (Nat × Nat)) := []   -- per server: (slot, tries) as last seen
+  udpSeen : List (Nat × Bytes × Nat) := []          -- (source index, datagram, time it was handled)
+  nasAddr : List Bytes := []
   tx : List (String × Bytes × Nat × Nat) := []      -- (server, packet, time of last transmission, transmissions so far)
   now : Nat := 0
 
@@ -237,6 +239,30 @@ def monOp (m : Mon) (op : String) (args : List String) (impl : List String) : Mo
         else if (res.attrs.filter fun a => !touched a.t) != (inp.filter fun a => !touched a.t) then (m, "bad C01:untouched-attributes-not-preserved-by-rewrite")
         else (m, "ok")
     | _, _ => (m, if (headToks out).head? == some "rv=0" then "ok" else "bad-op")
+  | "udplisten", _ => (resync m out, "ok")
+  | "udpnas", [ip] => ({ m with nasAddr := m.nasAddr ++ [((ip.splitOn ".").filterMap (·.toNat?)).map UInt8.ofNat] }, "ok")
+  | "udpsend", [n, pkt] =>
+    match n.toNat?, ofHex pkt with
+    | some n, some pkt =>
+      let toks := headToks out
+      let handled := toks.any (·.startsWith "ret=")
+      let fwd := toks.any (·.startsWith "fwd:")
+      let src := m.nasAddr.getD n []
+      let conf := m.cfg.clis.find? fun c => c.type = 0 && c.hosts.any fun (a, p) => if p ≥ 32 then a == src else Addr.prefixmatch src a p
+      let len := beVal ((pkt.drop 2).take 2)
+      let body := pkt.take len
+      let verdict :=
+        match conf with
+        | none => if handled then "bad C14:datagram-from-unconfigured-source-was-processed" else "ok"
+        | some c =>
+          -- C10: same source address+port, same identifier and authenticator, less than DuplicateInterval ago
+          if fwd && (m.udpSeen.any fun (n', b', t) => n' = n && b' == body && m.now - t < c.dup) then
+            "bad C10:retransmission-within-DuplicateInterval-forwarded-again"
+          else "ok"
+      let seen := if handled && !(m.udpSeen.any fun (n', b', t) => n' = n && b' == body && (match conf with | some c => decide (m.now - t < c.dup) | none => false))
+                  then (n, body, m.now) :: m.udpSeen else m.udpSeen
+      (resync { m with udpSeen := seen } out, verdict)
+    | _, _ => (m, "bad-op")
   | "tick", [n] => ({ m with now := m.now + (n.toNat?).getD 0 }, "ok")
   | "radput", _ => (m, "ok")
   | "reset", [name] => (resync { m with tx := m.tx.filter (·.1 ≠ name) } out, "ok")   -- a reset lets everything be sent again
